@@ -8,6 +8,8 @@
 package gocql
 
 import (
+	"time"
+	"sync/atomic"
 	"fmt"
 	"sort"
 	"strings"
@@ -464,6 +466,62 @@ func vxC10Run(c *vxC10Case, k *vstats.Case) error {
 				}
 			}
 			k.Class("a node left while the schema was unreadable")
+
+			// a keyspace event whose schema read is still under way when a node joins (events and refreshes run on
+			// different goroutines): whatever the order in which the two take effect, afterwards the node is in
+			// the ring. The schema read waits up to 20 ms for the join - which, while the policy is being updated,
+			// has to wait itself - so this is done for one case in forty.
+			sum := 0
+			for _, e := range ring {
+				sum += int(e.Token)
+			}
+			if sum%40 == 0 && !c.NTS {
+				jp := TokenAwareHostPolicy(RoundRobinHostPolicy()).(*tokenAwareHostPolicy)
+				jp.getKeyspaceName = func() string { return "ks" }
+				var armed int32
+				joined := make(chan struct{})
+				last := hosts[len(hosts)-1]
+				jp.getKeyspaceMetadata = func(string) (*KeyspaceMetadata, error) {
+					if atomic.CompareAndSwapInt32(&armed, 1, 0) {
+						go func() {
+							jp.AddHost(last)
+							close(joined)
+						}()
+						select {
+						case <-joined:
+						case <-time.After(20 * time.Millisecond):
+						}
+					}
+					return ks, nil
+				}
+				jp.logger = nopLogger{}
+				jp.SetPartitioner(vxPartNames[c.Part])
+				jp.AddHosts(hosts[:len(hosts)-1])
+				atomic.StoreInt32(&armed, 1)
+				jp.KeyspaceChanged(KeyspaceUpdateEvent{Keyspace: "ks"})
+				select {
+				case <-joined:
+				case <-time.After(10 * time.Second):
+					return fmt.Errorf("AddHost did not return within 10 s of a KeyspaceChanged event")
+				}
+				meta := jp.getMetadataReadOnly()
+				if meta == nil || meta.tokenRing == nil || len(meta.tokenRing.tokens) != len(ring) {
+					n := -1
+					if meta != nil && meta.tokenRing != nil {
+						n = len(meta.tokenRing.tokens)
+					}
+					return fmt.Errorf("node %s joined while a keyspace event was reading the schema: afterwards the policy's ring has %d tokens, the cluster has %d", last.hostId, n, len(ring))
+				}
+				for r := 0; r < vxRanks; r++ {
+					tok := tr.partitioner.ParseString(vxTokenString(c.Part, r))
+					if ht := meta.replicas["ks"].replicasFor(tok); ht != nil {
+						if want := cqlspec.SimpleReplicas(ring, c.RF, int64(r)); !cqlspec.SameSet(vxHostNames(ht.hosts), want) {
+							return fmt.Errorf("node %s joined while a keyspace event was reading the schema: replicas of rank %d are %v, Cassandra places it on %v", last.hostId, r, vxHostNames(ht.hosts), want)
+						}
+					}
+				}
+				k.Class("a node joined during a keyspace event")
+			}
 			if !c.NTS {
 				readable = true
 				hp.KeyspaceChanged(KeyspaceUpdateEvent{Keyspace: "ks"})
